@@ -412,14 +412,38 @@ func init() {
 	reg("fmt.Sprintln", func(x *Exec, fr *frame, args []Value) Value {
 		return Str{S: x.nativeSprint(args[0].(Slice).A, true) + "\n"}
 	})
+	// Fprint*: formatted natively (concrete arguments) and written through the writer's own Write
+	// method when the writer is interpreted code (bytes.Buffer, strings.Builder, harness writers);
+	// *os.File and writers of blackholed packages are discarded.
+	fwrite := func(x *Exec, fr *frame, w Value, text Str) Value {
+		iw, ok := w.(Iface)
+		if !ok || iw.T == nil || strings.Contains(iw.T.String(), "os.File") {
+			return Tuple{mkConst(64, 0), Iface{}}
+		}
+		m := x.eng.lookupMethodSafe(iw.T, "Write")
+		if m == nil || (m.Pkg != nil && x.eng.isBlackhole(m.Pkg.Pkg.Path())) {
+			return Tuple{mkConst(64, 0), Iface{}}
+		}
+		bs := text.bytes()
+		a := make([]Value, len(bs))
+		for i, b := range bs {
+			a[i] = b
+		}
+		return x.callFunction(fr, m, []Value{iw.V, Slice{A: a, NotNil: true}}, nil)
+	}
 	reg("fmt.Fprintf", func(x *Exec, fr *frame, args []Value) Value {
-		return Tuple{mkConst(64, 0), Iface{}}
+		return fwrite(x, fr, args[0], intrSprintf(x, fr, args[1:]).(Str))
 	})
-	reg("fmt.Fprintln", intrinsics["fmt.Fprintf"])
-	reg("fmt.Fprint", intrinsics["fmt.Fprintf"])
-	reg("fmt.Printf", intrinsics["fmt.Fprintf"])
-	reg("fmt.Println", intrinsics["fmt.Fprintf"])
-	reg("fmt.Print", intrinsics["fmt.Fprintf"])
+	reg("fmt.Fprintln", func(x *Exec, fr *frame, args []Value) Value {
+		return fwrite(x, fr, args[0], Str{S: x.nativeSprint(args[1].(Slice).A, true) + "\n"})
+	})
+	reg("fmt.Fprint", func(x *Exec, fr *frame, args []Value) Value {
+		return fwrite(x, fr, args[0], Str{S: x.nativeSprint(args[1].(Slice).A, false)})
+	})
+	discard := func(x *Exec, fr *frame, args []Value) Value { return Tuple{mkConst(64, 0), Iface{}} }
+	reg("fmt.Printf", discard)
+	reg("fmt.Println", discard)
+	reg("fmt.Print", discard)
 	reg("fmt.Appendf", func(x *Exec, fr *frame, args []Value) Value {
 		s := intrSprintf(x, fr, args[1:]).(Str)
 		dst := args[0].(Slice)
